@@ -12,14 +12,16 @@ import (
 	"strings"
 
 	"github.com/Comcast/rulio/core"
+	"github.com/Comcast/rulio/sys"
 
+	"verif/lib/cronner"
 	"verif/lib/drv"
 	"verif/lib/gen"
 	"verif/lib/ref"
 	"verif/lib/rep"
 )
 
-var protections = []string{"none", "writeKey", "readKey", "both", "readOnly", "disabled"}
+var protections = []string{"none", "writeKey", "readKey", "both", "readOnly", "disabled", "readOnly+writeKey", "readOnly+both"}
 var callers = []string{"nokey", "wrongkey", "rightkey"}
 
 type opdef struct {
@@ -92,6 +94,14 @@ func protect(t *twin, p string) {
 		setProp(t, "writeKey", "WK")
 		setProp(t, "readKey", "RK")
 	case "readOnly":
+		t.loc.SetReadOnly(ctx, true)
+	case "readOnly+writeKey":
+		// two protections at once: read-only refuses every write, whatever key is presented
+		setProp(t, "writeKey", "WK")
+		t.loc.SetReadOnly(ctx, true)
+	case "readOnly+both":
+		setProp(t, "writeKey", "WK")
+		setProp(t, "readKey", "RK")
 		t.loc.SetReadOnly(ctx, true)
 	case "disabled":
 		setProp(t, "enabled", "false")
@@ -395,7 +405,7 @@ func refusedExpected(o opdef, p, c string) bool {
 	}
 	right := c == "rightkey"
 	if o.write {
-		if p == "readOnly" {
+		if strings.HasPrefix(p, "readOnly") {
 			return true
 		}
 		if (p == "writeKey" || p == "both") && !right {
@@ -403,7 +413,7 @@ func refusedExpected(o opdef, p, c string) bool {
 		}
 	}
 	if o.read {
-		if (p == "readKey" || p == "both") && !right {
+		if (p == "readKey" || p == "both" || p == "readOnly+both") && !right {
 			return true
 		}
 	}
@@ -469,6 +479,7 @@ func main() {
 		}
 	}
 	parentMatrix(r, e, rounds)
+	sysMatrix(r, e)
 	r.Write()
 	fmt.Fprintf(os.Stderr, "c19 batch %d: %d evaluations\n", e.Batch, r.Evaluations)
 }
@@ -520,6 +531,185 @@ func parentMatrix(r *rep.Report, e rep.Env, rounds int) {
 						if (err == nil) != (err2 == nil) || res != res2 {
 							r.Violate("", fmt.Sprintf("%s with the right keys behaves differently from an unprotected parent", o), wit)
 						}
+					}
+				}
+			}
+		}
+	}
+}
+
+// ---- the same protections through sys.System ----
+
+type sysCase struct {
+	s  *sys.System
+	st core.Storage
+}
+
+func buildSys(kind string) *sysCase {
+	s, err := drv.NewSys(drv.SysOpts{Linear: kind == "linear", TTL: sys.Forever}, cronner.New(true))
+	if err != nil {
+		panic(err)
+	}
+	ctx := drv.Ctx()
+	s.AddFact(ctx, "P", "pf", `{"a":"parent"}`)
+	s.AddFact(ctx, "S", "f0", `{"a":"s1","n":0}`)
+	s.AddFact(ctx, "S", "f1", `{"a":"s2","n":1}`)
+	s.AddRule(ctx, "S", "r1", `{"when":{"pattern":{"do":"r"}},"action":{"code":"'ran'"}}`)
+	s.AddRule(ctx, "S", "rw", `{"when":{"pattern":{"do":"w"}},"action":{"code":"Env.AddFact('ja',{from:'action'}); 'wrote'"}}`)
+	s.SetParents(ctx, "S", []string{"P"})
+	st, _ := s.PeekStorage(ctx)
+	return &sysCase{s, st}
+}
+
+func (c *sysCase) protect(p string) {
+	ctx := callerCtx("rightkey")
+	add := func(name, val string) { c.s.AddFact(ctx, "S", "", fmt.Sprintf(`{"!%s":%q}`, name, val)) }
+	switch p {
+	case "writeKey":
+		add("writeKey", "WK")
+	case "readKey":
+		add("readKey", "RK")
+	case "both":
+		add("writeKey", "WK")
+		add("readKey", "RK")
+	case "readOnly":
+		if l, err := c.s.GetLocation(ctx, "S"); err == nil {
+			l.SetReadOnly(ctx, true)
+		}
+	case "disabled":
+		add("enabled", "false")
+	}
+}
+
+func (c *sysCase) raw() string {
+	ms, ok := c.st.(*core.MemStorage)
+	if !ok || ms == nil {
+		return "?"
+	}
+	ms.Lock()
+	defer ms.Unlock()
+	var out []string
+	for k, v := range ms.State(nil)["S"] {
+		if k == "!.writeKey" || k == "!.readKey" || k == "!.enabled" {
+			continue
+		}
+		out = append(out, k+"="+v)
+	}
+	sort.Strings(out)
+	return strings.Join(out, "\n")
+}
+
+var sysOps = []opdef{
+	{"AddFact", true, false}, {"RemFact", true, false}, {"AddRule", true, false}, {"RemRule", true, false}, {"EnableRule", true, false},
+	{"SetParents", true, false}, {"SetParentsEmpty", true, false}, {"SetParentsNil", true, false}, {"ClearLocation", true, false}, {"DeleteLocation", true, false},
+	{"action:AddFact", true, true},
+	{"GetFact", false, true}, {"GetRule", false, true}, {"SearchFacts", false, true}, {"SearchFactsInherited", false, true}, {"ListRules", false, true}, {"Query", false, true}, {"ProcessEvent", false, true},
+}
+
+func (c *sysCase) exec(o string, ctx *core.Context) (res string, err error) {
+	s := c.s
+	switch o {
+	case "AddFact":
+		_, err = s.AddFact(ctx, "S", "new", `{"a":"fresh"}`)
+	case "RemFact":
+		_, err = s.RemFact(ctx, "S", "f0")
+	case "AddRule":
+		_, err = s.AddRule(ctx, "S", "nr", `{"when":{"pattern":{"do":"x"}},"action":{"code":"1"}}`)
+	case "RemRule":
+		_, err = s.RemRule(ctx, "S", "r1")
+	case "EnableRule":
+		err = s.EnableRule(ctx, "S", "r1", false)
+	case "SetParents":
+		_, err = s.SetParents(ctx, "S", []string{"elsewhere"})
+	case "SetParentsEmpty":
+		_, err = s.SetParents(ctx, "S", []string{})
+	case "SetParentsNil":
+		_, err = s.SetParents(ctx, "S", nil)
+	case "ClearLocation":
+		err = s.ClearLocation(ctx, "S")
+	case "DeleteLocation":
+		err = s.DeleteLocation(ctx, "S")
+	case "action:AddFact":
+		var fr *core.FindRules
+		fr, err = s.ProcessEvent(ctx, "S", `{"do":"w"}`)
+		if err == nil && fr != nil {
+			for _, er := range fr.Children {
+				for _, erc := range er.Children {
+					for _, era := range erc.Children {
+						if era.Disposition != core.Complete {
+							err = fmt.Errorf("action failed: %s", era.Disposition.Msg)
+						}
+					}
+				}
+			}
+			res = fmt.Sprint(fr.Values)
+		}
+	case "GetFact":
+		res, err = s.GetFact(ctx, "S", "f1")
+	case "GetRule":
+		res, err = s.GetRule(ctx, "S", "r1")
+	case "SearchFacts", "SearchFactsInherited":
+		var srs *core.SearchResults
+		srs, err = s.SearchFacts(ctx, "S", `{"a":"?x"}`, o == "SearchFactsInherited")
+		res = strings.Join(drv.NormSearch(srs), ";")
+	case "ListRules":
+		var rs []string
+		rs, err = s.ListRules(ctx, "S", false)
+		sort.Strings(rs)
+		res = strings.Join(rs, ",")
+	case "Query":
+		var qr *core.QueryResult
+		qr, err = s.Query(ctx, "S", `{"pattern":{"a":"?x"}}`)
+		if qr != nil {
+			res = fmt.Sprint(len(qr.Bss))
+		}
+	case "ProcessEvent":
+		var fr *core.FindRules
+		fr, err = s.ProcessEvent(ctx, "S", `{"do":"r"}`)
+		if fr != nil {
+			res = fmt.Sprint(fr.Values)
+		}
+	}
+	return
+}
+
+// sysMatrix: the System passes the caller's context to the location, and implements some
+// operations itself (parents, clear, delete): same matrix, same expectations.
+func sysMatrix(r *rep.Report, e rep.Env) {
+	for _, kind := range drv.Kinds {
+		for _, p := range []string{"none", "writeKey", "readKey", "both", "readOnly", "disabled"} {
+			for _, c := range callers {
+				for _, o := range sysOps {
+					prot, plain := buildSys(kind), buildSys(kind)
+					prot.protect(p)
+					r.Journal(rep.J{"via": "sys", "state": kind, "protection": p, "caller": c, "op": o.name})
+					before := prot.raw()
+					res, err := prot.exec(o.name, callerCtx(c))
+					after := prot.raw()
+					r.Case(p != "none", fmt.Sprintf("sys|%s|%s|%s|%s", kind, p, c, o.name))
+					r.Count("system_level_cases", 1)
+					wit := rep.J{"via": "sys.System", "state": kind, "protection": p, "caller": c, "op": o.name, "error": drv.ErrStr(err), "result": res, "storage_before": before, "storage_after": after}
+					if refusedExpected(o, p, c) {
+						r.Count("refusals_expected", 1)
+						if err == nil {
+							r.Violate("", fmt.Sprintf("%s through the System was allowed for caller %s although the location is protected (%s)", o.name, c, p), wit)
+							continue
+						}
+						if before != after {
+							r.Violate("", fmt.Sprintf("%s through the System was refused (%v) but changed the stored state", o.name, err), wit)
+						}
+						continue
+					}
+					r.Count("allowed_expected", 1)
+					res2, err2 := plain.exec(o.name, drv.Ctx())
+					if (err == nil) != (err2 == nil) || res != res2 {
+						wit["twin_result"], wit["twin_error"] = res2, drv.ErrStr(err2)
+						r.Violate("", fmt.Sprintf("%s through the System with the right keys behaves differently from an unprotected location", o.name), wit)
+						continue
+					}
+					if after != plain.raw() {
+						wit["twin_storage_after"] = plain.raw()
+						r.Violate("", fmt.Sprintf("%s through the System with the right keys leaves a different stored state than on an unprotected location", o.name), wit)
 					}
 				}
 			}
